@@ -178,7 +178,7 @@ def lattices(ctx: core.Ctx):
         Ts, apis = [80.0, 125.0, 170.0, 215.0, 260.0, 305.0, 350.0], [12.0, 20.0, 28.0, 35.0, 42.0, 50.0, 55.0]
         ggs = [0.56, 0.65, 0.8, 0.95, 1.1, 1.3]
         gors = [20.0, 60.0, 150.0, 350.0, 650.0, 1100.0, 1800.0, 2500.0]
-        n_rand, wTs = 6000, [float(t) for t in range(60, 401, 5)]
+        n_rand, wTs = 30000, [float(t) for t in range(60, 401, 2)]
     oils = [o for o in itertools.product(Ts, apis, ggs, gors)]
     for _ in range(n_rand):
         oils.append((float(rng.uniform(80, 350)), float(rng.uniform(12, 55)), float(rng.uniform(0.56, 1.3)),
